@@ -151,6 +151,26 @@ pub proof fn lemma_diff(w: Seq<nat>, a: Set<int>, b: Set<int>, k: int)
     requires 0 <= k <= w.len()
     ensures wsum(w, a.difference(b), k) + wsum(w, a.intersect(b), k) == wsum(w, a, k)
     decreases k { if k > 0 { lemma_diff(w, a, b, k - 1); } }
+// Quorum intersection: two quorums share a validator outside any faulty set of weight <= f (so two commit certificates for the
+// same view carry the same block, given that a correct validator signs at most one commit vote per view -- C03)
+pub proof fn lemma_two_quorums_share_correct(w: Seq<nat>, q1: Set<int>, q2: Set<int>, faulty: Set<int>)
+    requires
+        wt(w, all_of(w)) >= 1, q1.subset_of(all_of(w)), q2.subset_of(all_of(w)),
+        wt(w, q1) >= wt(w, all_of(w)) - spec_f(wt(w, all_of(w))),
+        wt(w, q2) >= wt(w, all_of(w)) - spec_f(wt(w, all_of(w))),
+        wt(w, faulty) <= spec_f(wt(w, all_of(w))),
+    ensures
+        wt(w, q1.intersect(q2)) > spec_f(wt(w, all_of(w))),
+        exists|i: int| q1.contains(i) && q2.contains(i) && !faulty.contains(i),
+{
+    let k = w.len() as int;
+    lemma_inter_union(w, q1, q2, k);
+    lemma_mono(w, q1.union(q2), all_of(w), k);
+    if forall|i: int| q1.contains(i) && q2.contains(i) ==> faulty.contains(i) {
+        assert(q1.intersect(q2).subset_of(faulty));
+        lemma_mono(w, q1.intersect(q2), faulty, k);
+    }
+}
 // For every committee, every faulty set F of weight <= f, every quorum Q that signed a commit vote for header h in view v and
 // every timeout quorum T for view v in which every correct signer of Q reports h as its high vote:
 //   the weight reporting h reaches n-3f, and the weight reporting anything else stays below n-3f.
